@@ -333,6 +333,9 @@ func (n *normalizer) inlinable(fn *types.Func, fd *ast.FuncDecl) bool {
 	if fn != nil && n.wrapEntryLike(fn, fd) {
 		return false // a new error-wrapper entry point: kept as a function and recognised by its summary (wrapInfoOf)
 	}
+	if fn != nil && packetReadLike(fn) {
+		return false // the function that reads one packet off the transport: the unit the serve model and the codec rules anchor in
+	}
 	ok := true
 	defer func() {
 		if !ok {
@@ -356,9 +359,7 @@ func (n *normalizer) inlinable(fn *types.Func, fd *ast.FuncDecl) bool {
 					n.hasDefer[fd] = true // only inlinable in tail position
 				}
 			case *ast.LabeledStmt:
-				if !inLit {
-					ok = false
-				}
+				// labels are renamed per site (inlineSite), so that two copies in one function do not clash
 			case *ast.BranchStmt:
 				if y.Tok == token.GOTO {
 					ok = false
@@ -748,8 +749,15 @@ func (n *normalizer) hoistable(stmt ast.Stmt, call *ast.CallExpr) bool {
 		found, ok = within(s.X)
 	case *ast.AssignStmt:
 		rvalueCtx = false
-		if f2, ok2 := seq(s.Lhs...); f2 || !ok2 {
+		f2, ok2 := seq(s.Lhs...)
+		if !ok2 {
 			return false
+		}
+		if f2 {
+			// inside an index or pointer operand of an assignment target: operands of the targets are evaluated, in order,
+			// before anything on the right-hand side
+			found, ok = true, true
+			break
 		}
 		rvalueCtx = true
 		found, ok = seq(s.Rhs...)
@@ -950,13 +958,55 @@ func (n *normalizer) checkFreeNames(fd *ast.FuncDecl, s *site, filename string) 
 				return true // declared inside the callee
 			}
 			_, found := scope.LookupParent(id.Name, s.stmt.Pos())
-			if found != obj {
+			if found != obj && !n.sameValue(found, obj) {
 				ok = false
 			}
 		}
 		return true
 	})
 	return ok
+}
+
+// aliasRoot follows single-assignment copies `a := b` of local variables back to the variable they copy.
+func (n *normalizer) aliasRoot(obj types.Object) types.Object {
+	for depth := 0; depth < 12; depth++ {
+		v, ok := obj.(*types.Var)
+		if !ok || v.IsField() || v.Parent() == nil || v.Parent() == n.pp.Types.Scope() || n.varBad[v] {
+			return obj
+		}
+		e, has := n.varDef[v]
+		if !has || n.varAssign[v] != nil {
+			return obj
+		}
+		id, isId := ast.Unparen(e).(*ast.Ident)
+		if !isId {
+			return obj
+		}
+		next := n.info.Uses[id]
+		if next == nil {
+			return obj
+		}
+		obj = next
+	}
+	return obj
+}
+
+// sameValue: a and b are local variables that always hold the same value wherever both are in scope: one is a
+// single-assignment copy of the other (the parameter bindings that inlining introduces), and the copied variable is
+// itself never reassigned.
+func (n *normalizer) sameValue(a, b types.Object) bool {
+	if a == nil || b == nil {
+		return false
+	}
+	ra, rb := n.aliasRoot(a), n.aliasRoot(b)
+	if ra != rb {
+		return false
+	}
+	v, ok := ra.(*types.Var)
+	if !ok || v.IsField() || v.Parent() == nil || v.Parent() == n.pp.Types.Scope() || n.varBad[v] || n.varAssign[v] != nil {
+		return false
+	}
+	return true
 }
 
 // paramOnlyCalled: inside the callee the parameter is only the receiver of method calls, an argument, or a returned value.
@@ -2425,6 +2475,14 @@ func (n *normalizer) inlineSite(filename string, s *site) (done bool) {
 			}
 		}
 	}
+	ast.Inspect(fd.Body, func(x ast.Node) bool {
+		if ls, ok := x.(*ast.LabeledStmt); ok {
+			if obj := n.info.Defs[ls.Label]; obj != nil {
+				rename[obj] = pfx + "l_" + ls.Label.Name
+			}
+		}
+		return true
+	})
 	if th != nil {
 		used := map[string]bool{th.cond: true}
 		for _, l := range th.lhs {
@@ -2921,4 +2979,28 @@ func (n *normalizer) apply() error {
 		n.overlay[filename] = out.Bytes()
 	}
 	return nil
+}
+
+// packetReadLike: results (packetType, byte, []byte, error) — the role of readPacket.
+func packetReadLike(fn *types.Func) bool {
+	sig, ok := fn.Type().(*types.Signature)
+	if !ok || sig.Results().Len() != 4 {
+		return false
+	}
+	r := sig.Results()
+	n0, ok := r.At(0).Type().(*types.Named)
+	if !ok || n0.Obj().Name() != "packetType" {
+		return false
+	}
+	if b, ok := r.At(1).Type().(*types.Basic); !ok || b.Kind() != types.Uint8 {
+		return false
+	}
+	sl, ok := r.At(2).Type().(*types.Slice)
+	if !ok {
+		return false
+	}
+	if b, ok := sl.Elem().(*types.Basic); !ok || b.Kind() != types.Uint8 {
+		return false
+	}
+	return r.At(3).Type().String() == "error"
 }
